@@ -468,6 +468,8 @@ fn oflags(s: &str) -> i32 {
         "rw" => libc::O_RDWR,
         "wt" => libc::O_WRONLY | libc::O_TRUNC,
         "wa" => libc::O_WRONLY | libc::O_APPEND,
+        "rt" => libc::O_RDONLY | libc::O_TRUNC,
+        "ra" => libc::O_RDONLY | libc::O_APPEND,
         _ => libc::O_RDONLY,
     }
 }
@@ -1127,7 +1129,7 @@ fn copy_up_oracle(before: &[BTreeMap<String, Node>], after: &[BTreeMap<String, N
                 if of[1] != nf[1] && !(is_target && op[0] == "chmod") {
                     fire0("C11", "C11:copy-up:mode".into(), format!("{}: '{}' was {} and its upper copy is {}", o, p, orig, now));
                 }
-                if of[2] != nf[2] && !(is_target && (matches!(op[0], "write" | "truncate") || (op[0] == "open" && op[2] == "wt"))) {
+                if of[2] != nf[2] && !(is_target && (matches!(op[0], "write" | "truncate") || (op[0] == "open" && (op[2] == "wt" || op[2] == "rt")))) {
                     fire0("C11", "C11:copy-up:content".into(), format!("{}: '{}' was {} and its upper copy is {}", o, p, orig, now));
                 }
                 if of[3] != nf[3] && !(is_target && matches!(op[0], "setx" | "rmx")) {
@@ -1273,7 +1275,7 @@ fn gen_case(r: &mut Prng, prop: &str) -> String {
         } else if k < 64 {
             format!("rmdir,{}", rand_path(r, &dirs, 3))
         } else if k < 68 {
-            format!("open,{},{}", rand_path(r, &known, 3), r.pick(&["r", "w", "rw", "wt", "wa"]))
+            format!("open,{},{}", rand_path(r, &known, 3), r.pick(&["r", "w", "rw", "wt", "wa", "rt", "ra"]))
         } else if k < 78 {
             let nch = r.range(1, 2);
             let data: Vec<String> = (0..nch).map(|_| r.range(100, 199).to_string()).collect();
